@@ -56,7 +56,7 @@ def gen(rng):
         c['clip'] = [rng.randint(lo, 0) , rng.randint(0, hi)]
         if rng.random() < 0.15 and c['clip'][0] != c['clip'][1]: c['clip'] = c['clip'][::-1]     # (a_min > a_max: NumPy defines the result as minimum(maximum(x, a_min), a_max))
         # how the bounds are given: Python floats, one side only, NumPy integers of a narrow type (integral bounds), fixed-point objects
-        c['clip_kind'] = rng.choice(['float', 'float', 'lower_only', 'upper_only', 'npint', 'fxp', 'fxp', 'kw', 'mixed_kw']); c['vpath'] = rng.random() < 0.5
+        c['clip_kind'] = rng.choice(['float', 'float', 'lower_only', 'upper_only', 'npint', 'fxp', 'fxp', 'kw', 'mixed_kw']); c['vpath'] = rng.random() < 0.5; c['bound_raw'] = rng.random() < 0.5
     if op == 'transpose' and rng.random() < 0.6:
         perm = list(range(len(shape))); rng.shuffle(perm); c['axes'] = perm
     return c
@@ -123,7 +123,9 @@ def run_cases(cases, res):
                 if kind == 'npint' and nf < 0: kind = 'float'
                 ba, bb = float(a * lsb), float(b * lsb)
                 if kind == 'npint': ba, bb = np.int8(a >> nf), np.int8(b >> nf)
-                elif kind == 'fxp': ba, bb = A.mk(fx, np, s, nw, nf, a), A.mk(fx, np, s, nw, nf, b)
+                elif kind == 'fxp':
+                    ba, bb = A.mk(fx, np, s, nw, nf, a), A.mk(fx, np, s, nw, nf, b)
+                    if c.get('bound_raw'): ba.config.array_op_method = 'raw'; bb.config.array_op_method = 'raw'      # (how a BOUND presents itself to NumPy functions is its own matter: the bound is its value)
                 if kind == 'lower_only': z = x.clip(ba, None) if meth else np.clip(x, ba, None); b = hi_code(s, nw)
                 elif kind == 'upper_only': z = x.clip(None, bb) if meth else np.clip(x, None, bb); a = lo_code(s, nw)
                 elif kind == 'kw': z = x.clip(a_min=ba, a_max=bb) if meth else np.clip(x, min=ba, max=bb)
